@@ -475,6 +475,12 @@ class Checker:
                 exp = ",".join(map(str, offs)) + "\t" + ",".join(map(str, flags)) + f"\t{len(buf)}\t{ri.cell_count}"
                 self.queue("saved-rows/abs", f"{name}:{o['id']}:{ri.tile_row_index}", f"abs\t{cells}", exp)
                 self.rows_seen += 1
+                # hypothesis records_ok of tiles_wf on the records actually stored: as long as their flags word says
+                lens = [len(b) for b in bufs if b is not None]
+                self.ctx.count("saved-rows/record-length")
+                if lens != [A.reclen(f) for f in flags]:
+                    self.ctx.disagree("saved-rows/record-length", f"{name}:{o['id']}:{ri.tile_row_index}",
+                                      str([A.reclen(f) for f in flags])[:200], str(lens)[:200])
 
 
 def report(ctx: Ctx, chk: Checker, case: dict, sigs: list, rerun=None):
@@ -512,7 +518,10 @@ def run_case(tmp: Path, case: dict, chk: Checker | None = None, ctx: Ctx | None 
                     chk.ctx.notes.append(f"save raised {type(e).__name__} for case {case.get('name')} (no package produced; outside C07)")
                 break
             sigs += chk.check(case, src, dst, alloc, keep=case.get("keep", False))
-            r.continue_from(dst)
+            try:
+                r.continue_from(dst)
+            except Exception:  # noqa: BLE001 - already reported by check() as reopen-raises
+                break
         else:
             r.apply(op)
     return sigs
@@ -629,7 +638,8 @@ def seeded_defects(ctx: Ctx, chk: Checker):
     n = 0
     for name, a0 in chk.abstracts:
         for kind in ["drop-object", "dup-id", "lower-last", "drop-component", "drop-member", "flip-touched", "bad-data",
-                     "tile-shift", "tile-offset", "tile-count", "tile-index", "tile-move-row", "drop-D"]:
+                     "tile-shift", "tile-offset", "tile-count", "tile-index", "tile-move-row", "drop-D",
+                     "bad-dataref", "bad-uuid", "tile-big", "tile-offslen", "tile-offneg", "tile-flagslen"]:
             a = copy.deepcopy(a0)
             objs = a["objects"]
             added = [o for o in objs if o["added"]] or objs
@@ -657,6 +667,15 @@ def seeded_defects(ctx: Ctx, chk: Checker):
                 a["D"] = []
             elif kind == "bad-data":
                 a["datas"].append({"id": a["datas"][0]["id"] if a["datas"] else 1, "file": "nope.png", "added": True})
+            elif kind == "bad-dataref":
+                v = rng.choice(added)
+                v["touched"] = True
+                v["drefs"] = list(v["drefs"]) + [(987654321, "seeded")]
+                v["hdrefs"] = list(v["hdrefs"]) + [987654322]
+            elif kind == "bad-uuid":
+                if not a["components"]:
+                    continue
+                rng.choice(a["components"])["uuid"].append((987654323, True))
             elif kind == "drop-D":
                 a["D"] = a["D"][1:]
                 for o in objs:
@@ -680,14 +699,34 @@ def seeded_defects(ctx: Ctx, chk: Checker):
                     row["count"] += 1
                 elif kind == "tile-index":
                     row["index"] = rng.choice([256, tl["rows"][0]["index"]]) if len(tl["rows"]) > 1 else 256
+                elif kind == "tile-big":
+                    import copy as _c
+                    while len(tl["rows"]) <= 256:
+                        nr_ = _c.deepcopy(tl["rows"][-1])
+                        nr_["index"] += 1
+                        tl["rows"].append(nr_)
+                    tl["numrows"] = len(tl["rows"])
+                elif kind == "tile-offslen":
+                    row["offs"].append(-1)
+                elif kind == "tile-offneg":
+                    row["offs"][rng.randrange(len(row["offs"]))] = -2
+                elif kind == "tile-flagslen":
+                    if not row["flags"]:
+                        continue
+                    row["flags"].pop()
                 elif kind == "tile-move-row":
                     if len(tmut["tiles"]) < 2:
                         tmut["tiles"].append({"tileid": 1, "numrows": 0, "rows": [], "oid": 0})
                     tmut["tiles"][1]["rows"].append(tl["rows"].pop())
             if tmut is not None:
-                chk.queue("seeded/table", f"{name}:{kind}", A.tbl_line(tmut), A.render(A.py_validate_tbl(tmut)))
+                exp = A.render(A.py_validate_tbl(tmut))
+                chk.queue("seeded/table", f"{name}:{kind}", A.tbl_line(tmut), exp)
             else:
-                chk.queue("seeded/package", f"{name}:{kind}", A.pkg_line(a), A.render(A.py_validate_pkg(a)))
+                exp = A.render(A.py_validate_pkg(a))
+                chk.queue("seeded/package", f"{name}:{kind}", A.pkg_line(a), exp)
+            ctx.dist("seeded:reported" if exp != "ok" else "seeded:no-effect")
+            for dk in {x.split(":")[0] for x in exp.split(";")} - {"ok"}:
+                ctx.dist("seeded-defect-kind:" + dk)
             n += 1
     ctx.dist("seeded-abstract-defects", n)
 
@@ -713,7 +752,11 @@ def random_case(ctx: Ctx, chk: Checker, name: str, base, length: int, weights=No
                 ctx.notes.append(f"save raised {type(e).__name__}: {str(e)[:120]} in history {name} (no package produced; outside C07)")
                 return case
             sigs += chk.check(case, src, dst, alloc, keep=True)
-            r.continue_from(dst)
+            try:
+                r.continue_from(dst)
+            except Exception:  # noqa: BLE001 - already reported by check() as reopen-raises
+                report(ctx, chk, dict(case, ops=list(case["ops"])), sigs, rerun=True)
+                return case
         else:
             out = r.apply(op)
             ctx.dist("op:" + op[0])
@@ -790,7 +833,11 @@ def run(ctx: Ctx) -> int:
     idalloc_stream(ctx, exe)
 
     mark("idalloc")
-    # ---- B. corpus: fixed cases that must always run (each edit kind alone on the default document)
+    # ---- B. corpus (minimised failing cases, always first), then each edit kind alone on the default document
+    for f in sorted((common.VERIF / "corpus" / "C07").glob("*.json")):
+        cc = json.loads(f.read_text())["case"]
+        report(ctx, chk, cc, run_case(ctx.tmp, cc, chk), rerun=False)
+        ctx.dist("cases:corpus")
     singles = [
         ("plain", []), ("add-table", [["NT", 0, 3, 3]]), ("add-sheet", [["NS", 4, 2]]),
         ("style", [["ST", 0, 0, 0, 3, 1], ["ST", 0, 1, 1, 0, 0]]), ("image", [["IMG", 0, 0, 0, 7, 0], ["IMG", 0, 1, 1, 8, 1]]),
